@@ -146,10 +146,34 @@ func (captureIngester) Read() (schemahandler.RawRecord, []byte, error) { return 
 func (captureIngester) IsContinuableError(error) bool                  { return false }
 func (captureIngester) FmtErr(f string, a ...interface{}) error        { return fmt.Errorf(f, a...) }
 
-type captureHandler struct{ got *[]byte }
+type captureHandler struct {
+	got     *[]byte
+	readBuf *int // 0: ioutil.ReadAll; n > 0: the consumer reads n bytes at a time
+}
 
 func (h captureHandler) NewIngester(_ *transformctx.Ctx, input io.Reader) (schemahandler.Ingester, error) {
-	b, err := ioutil.ReadAll(input)
+	var b []byte
+	var err error
+	if *h.readBuf <= 0 {
+		b, err = ioutil.ReadAll(input)
+	} else {
+		// a consumer with a small buffer, as the format readers are: the bufio.Reader inside
+		// StripBOM then refills its whole 4096-byte buffer from the decoder each time
+		p := make([]byte, *h.readBuf)
+		for zero := 0; err == nil && zero < 100; {
+			var n int
+			n, err = input.Read(p)
+			b = append(b, p[:n]...)
+			if n == 0 {
+				zero++
+			} else {
+				zero = 0
+			}
+		}
+		if err == io.EOF {
+			err = nil
+		}
+	}
 	if err != nil {
 		return nil, err
 	}
@@ -158,8 +182,9 @@ func (h captureHandler) NewIngester(_ *transformctx.Ctx, input io.Reader) (schem
 }
 
 type captureSchema struct {
-	s   omniparser.Schema
-	got []byte
+	s       omniparser.Schema
+	got     []byte
+	readBuf int
 }
 
 func encSetting(enc string) string {
@@ -176,7 +201,7 @@ func newCaptureSchema(enc string) (*captureSchema, error) {
 		if ctx.Header.ParserSettings.Version != "verif.capture" {
 			return nil, errs.ErrSchemaNotSupported
 		}
-		return captureHandler{got: &cs.got}, nil
+		return captureHandler{got: &cs.got, readBuf: &cs.readBuf}, nil
 	}}
 	src := `{"parser_settings": {"version": "verif.capture", "file_format_type": "capture"` + encSetting(enc) + `}}`
 	s, err := omniparser.NewSchema("capture", strings.NewReader(src), ext)
@@ -211,7 +236,7 @@ type step struct {
 	Bytes string `json:"bytes,omitempty"`
 }
 
-func transcript(s omniparser.Schema, mode string, in []byte) (steps []step) {
+func transcript(s omniparser.Schema, mode string, in []byte, maxReads int) (steps []step) {
 	defer func() {
 		if r := recover(); r != nil {
 			steps = append(steps, step{Kind: "panic"})
@@ -221,7 +246,7 @@ func transcript(s omniparser.Schema, mode string, in []byte) (steps []step) {
 	if err != nil {
 		return []step{{Kind: "newtransform-error"}}
 	}
-	for i := 0; i < 60; i++ {
+	for i := 0; i < maxReads; i++ {
 		b, err := t.Read()
 		switch {
 		case err == nil:
@@ -299,6 +324,7 @@ type caseDesc struct {
 	InputHex string `json:"input_hex,omitempty"`
 	Mode     string `json:"reader,omitempty"`
 	Format   string `json:"format,omitempty"`
+	Consumer int    `json:"consumer_read_size,omitempty"` // pipe: 0 = ioutil.ReadAll, n = the ingester reads n bytes at a time
 }
 
 var encs = []string{"utf-8", "iso-8859-1", "windows-1252"}
@@ -357,15 +383,49 @@ func (e *env) schemaFor(fi int, enc string) omniparser.Schema {
 
 // runPipe observes the stream handed to the ingester, evaluates the oracle on it and records
 // the model case.
-func (e *env) runPipe(enc string, in []byte, mode string) {
-	d := caseDesc{Kind: "pipe", Enc: enc, InputHex: hex.EncodeToString(in), Mode: mode}
+func (e *env) runPipe(enc string, in []byte, mode string) { e.runPipeX(enc, in, mode, 0, true) }
+
+// diffDetail describes where two streams part (long streams are not dumped in full).
+func diffDetail(got, want []byte) map[string]interface{} {
+	i := 0
+	for i < len(got) && i < len(want) && got[i] == want[i] {
+		i++
+	}
+	win := func(b []byte) string {
+		lo, hi := i-8, i+8
+		if lo < 0 {
+			lo = 0
+		}
+		if hi > len(b) {
+			hi = len(b)
+		}
+		if lo > hi {
+			lo = hi
+		}
+		return hex.EncodeToString(b[lo:hi])
+	}
+	d := map[string]interface{}{"first_difference_at": i, "observed_len": len(got), "expected_len": len(want),
+		"observed_around_hex": win(got), "expected_around_hex": win(want)}
+	if len(got) <= 64 && len(want) <= 64 {
+		d["observed_hex"], d["expected_hex"] = hex.EncodeToString(got), hex.EncodeToString(want)
+	}
+	return d
+}
+
+// runPipeX: consumer = how the ingester reads the stream (0: ReadAll, n: n bytes at a time);
+// toModel = also hand the case to the Coq model.
+func (e *env) runPipeX(enc string, in []byte, mode string, consumer int, toModel bool) {
+	d := caseDesc{Kind: "pipe", Enc: enc, InputHex: hex.EncodeToString(in), Mode: mode, Consumer: consumer}
 	cs := e.captureFor(enc)
 	if cs == nil {
 		return
 	}
+	vh.Current(e.o, d)
+	cs.readBuf = consumer
 	got, err := cs.stream(mode, in)
+	cs.readBuf = 0
 	if e.verbose {
-		fmt.Printf("pipe enc=%q reader=%s input=%x\n  implementation: %x (err=%v)\n  expected      : %x\n", enc, mode, in, got, err, expectedStream(enc, in))
+		fmt.Printf("pipe enc=%q reader=%s consumer=%d input=%d bytes\n  difference from the standard conversion: %v (err=%v)\n", enc, mode, consumer, len(in), diffDetail(got, expectedStream(enc, in)), err)
 	}
 	if err != nil {
 		e.sum.Fail("NewTransform failed on an in-memory input", d, err.Error())
@@ -373,22 +433,23 @@ func (e *env) runPipe(enc string, in []byte, mode string) {
 	}
 	want := expectedStream(enc, in)
 	if !bytes.Equal(got, want) {
-		e.sum.Fail("stream handed to the format reader differs from the standard conversion of the input to UTF-8 (one leading BOM removed for utf-8)", d,
-			map[string]string{"observed_hex": hex.EncodeToString(got), "expected_hex": hex.EncodeToString(want)})
+		e.sum.Fail("stream handed to the format reader differs from the standard conversion of the input to UTF-8 (one leading BOM removed for utf-8)", d, diffDetail(got, want))
 	}
-	if mode != "whole" {
+	if mode != "whole" || consumer != 0 {
 		whole, err2 := cs.stream("whole", in)
 		if err2 != nil || !bytes.Equal(whole, got) {
-			e.sum.Fail("stream depends on how the input is split into reads", d,
-				map[string]string{"split_hex": hex.EncodeToString(got), "whole_hex": hex.EncodeToString(whole)})
+			e.sum.Fail("stream depends on how the input is split into reads / how the consumer reads", d, diffDetail(got, whole))
 		}
 	}
 	nontrivial := hasHigh(in) && enc != "" && enc != "utf-8" || bytes.HasPrefix(in, bom[:1])
-	e.sum.Count("pipe|"+enc+"|"+d.InputHex+"|"+mode, nontrivial)
+	e.sum.Count(fmt.Sprintf("pipe|%s|%s|%s|%d", enc, d.InputHex, mode, consumer), nontrivial)
 	e.sum.Hist("pipe:enc=" + encLabel(enc))
 	e.sum.Hist("pipe:reader=" + modeLabel(mode))
+	if len(in) >= 4096 {
+		e.sum.Hist("pipe:long-input(>=4096)")
+	}
 	k := enc + "|" + d.InputHex
-	if !e.seenPipe[k] {
+	if toModel && !e.seenPipe[k] {
 		e.seenPipe[k] = true
 		e.cw.Add(fmt.Sprintf("PipeCase %s %s %s", coqEnc(enc), vh.CoqHex(in), vh.CoqHex(got)), d)
 	}
@@ -422,9 +483,11 @@ func (e *env) runTranscript(fi int, enc string, in []byte, mode string) {
 	if s == nil || ref == nil {
 		return
 	}
-	a := transcript(s, mode, in)
+	vh.Current(e.o, d)
+	maxReads := 60 + len(in)/8
+	a := transcript(s, mode, in, maxReads)
 	conv := expectedStream(enc, in)
-	b := transcript(ref, "whole", conv)
+	b := transcript(ref, "whole", conv, maxReads)
 	if e.verbose {
 		fmt.Printf("transcript format=%s enc=%q reader=%s input=%x\n  (bytes, %s)        : %+v\n  (utf8(bytes), utf-8): %+v\n", d.Format, enc, mode, in, encLabel(enc), a, b)
 	}
@@ -443,21 +506,200 @@ func (e *env) runTranscript(fi int, enc string, in []byte, mode string) {
 		e.sum.Hist("transcript:delivers-records")
 	}
 	if ok, i := sameSteps(a, b); !ok {
-		e.sum.Fail("Read transcript of (bytes, "+encLabel(enc)+") differs from the transcript of (utf8(bytes), utf-8)", d,
-			map[string]interface{}{"first_difference_at": i, "with_encoding": a, "preconverted_utf8": b, "preconverted_hex": hex.EncodeToString(conv)})
+		detail := map[string]interface{}{"first_difference_at": i, "with_encoding": a, "preconverted_utf8": b, "preconverted_hex": hex.EncodeToString(conv)}
+		if len(in) > 2000 {
+			// long input: only the step at which the transcripts part
+			at := func(x []step) interface{} {
+				if i < len(x) {
+					return x[i]
+				}
+				return "(transcript ended)"
+			}
+			detail = map[string]interface{}{"first_difference_at": i, "with_encoding": at(a), "preconverted_utf8": at(b), "steps": []int{len(a), len(b)}}
+		}
+		e.sum.Fail("Read transcript of (bytes, "+encLabel(enc)+") differs from the transcript of (utf8(bytes), utf-8)", d, detail)
 	}
 	nontrivial := nrec > 0 && (hasHigh(in) && enc != "" && enc != "utf-8" || bytes.HasPrefix(in, bom))
 	e.sum.Count("transcript|"+d.Format+"|"+enc+"|"+d.InputHex+"|"+mode, nontrivial)
+	if len(in) > 2000 {
+		e.sum.Hist("transcript:long-input")
+		e.runPipeX(enc, in, mode, 0, false)
+		return
+	}
 	if nontrivial {
 		e.sum.Sample(map[string]interface{}{"case": d, "transcript": a})
 	}
 	e.runPipe(enc, in, mode)
 }
 
+// longRows builds an all-ASCII input of at least minLen bytes for the format of fixture fi:
+// many well-formed records whose fields a and c are runs of letters.
+func longRows(fi int, minLen int) []byte {
+	var b bytes.Buffer
+	w := func(s string) { b.WriteString(s) }
+	row := 0
+	next := func() (string, string, string) {
+		row++
+		l := string(rune('a' + row%26))
+		return strings.Repeat(l, 5+row%2), fmt.Sprint(row % 1000), strings.Repeat(l, 6-row%2)
+	}
+	switch fi {
+	case 0:
+		w("a,b,c\n")
+		for b.Len() < minLen {
+			x, n, y := next()
+			w(x + "," + n + "," + y + "\n")
+		}
+	case 1:
+		w("H|head\n")
+		for b.Len() < minLen {
+			x, n, y := next()
+			w("R|" + x + "|" + n + "|" + y + "\n")
+		}
+	case 2:
+		w("HDR*1~")
+		for b.Len() < minLen {
+			x, n, y := next()
+			w("DAT*" + x + "*" + n + "*" + y + "~")
+		}
+		w("TRL*9~")
+	case 3:
+		for b.Len() < minLen {
+			x, n, y := next()
+			w(pad6(x) + (n + "     ")[:5] + pad6(y) + "\n")
+		}
+	case 4:
+		w("Hhead\n")
+		for b.Len() < minLen {
+			x, n, y := next()
+			w("R" + pad6(x) + (n + "     ")[:5] + pad6(y) + "\n")
+		}
+	case 5:
+		w("[")
+		for b.Len() < minLen {
+			x, n, y := next()
+			if row > 1 {
+				w(",")
+			}
+			w(`{"a":"` + x + `","b":"` + n + `","c":"` + y + `"}`)
+		}
+		w("]")
+	default:
+		w("<r>")
+		for b.Len() < minLen {
+			x, n, y := next()
+			w("<n><a>" + x + "</a><b>" + n + "</b><c>" + y + "</c></n>")
+		}
+		w("</r>")
+	}
+	return b.Bytes()
+}
+
+func pad6(s string) string { return (s + "      ")[:6] }
+
+// boundaryOffsets: offsets around the multiples of 4096 (the size of the bufio.Reader that
+// ios.StripBOM puts in front of the format reader, and of x/text's transform.Reader buffers).
+func boundaryOffsets() []int {
+	var offs []int
+	for p := 4090; p <= 4100; p++ {
+		offs = append(offs, p)
+	}
+	for p := 8186; p <= 8196; p++ {
+		offs = append(offs, p)
+	}
+	for _, k := range []int{3, 4, 5, 8} {
+		for p := k*4096 - 3; p <= k*4096+3; p++ {
+			offs = append(offs, p)
+		}
+	}
+	return offs
+}
+
+// longCases: filler of ASCII with non-ASCII bytes placed at and across the buffer boundaries,
+// for the direct stream comparison (all encodings, all offsets) and for the formats.
+func (e *env) longCases(r *vh.Rng) {
+	offs := boundaryOffsets()
+	total := 8*4096 + 64
+	filler := func() []byte {
+		b := make([]byte, total)
+		for i := range b {
+			b[i] = byte('a' + i%23)
+		}
+		return b
+	}
+	// what is placed at the offset: single bytes of each UTF-8 length class and runs
+	inserts := [][]byte{{0xE9}, {0x80}, {0x81}, {0xFF}, {0xE9, 0xE8}, {0xE9, 0xE8, 0xE7}, {0x80, 0x80, 0x80, 0x80, 0x80}, {0xC3, 0xA9}, {0xE2, 0x82, 0xAC}, {0xF0, 0x9F, 0x98, 0x80}, {0xEF, 0xBB, 0xBF}}
+	n := 0
+	for _, enc := range encs {
+		for _, p := range offs {
+			for ii, ins := range inserts {
+				in := filler()
+				copy(in[p:], ins)
+				in = in[:p+len(ins)+5+ii] // the boundary under test is the last one the input reaches
+				consumer := []int{61, 0, 4096, 1000}[(n+ii)%4]
+				mode := "whole"
+				if n%9 == 8 {
+					mode = "chunks:4096,4095,3"
+				}
+				// the model evaluates one case per offset (rotating over what is inserted and the encoding)
+				e.runPipeX(enc, in, mode, consumer, n%len(inserts) == ii && p <= 8196)
+			}
+			n++
+		}
+		// runs of non-ASCII bytes across each boundary, every alignment
+		for _, k := range []int{1, 2, 3} {
+			for start := k*4096 - 9; start <= k*4096-1; start++ {
+				in := filler()[:k*4096+40]
+				for i := start; i < start+18; i++ {
+					in[i] = byte(0x80 + (i*7)%0x80)
+				}
+				e.runPipeX(enc, in, "whole", []int{61, 0}[start%2], false)
+			}
+		}
+		// the same shifted by a leading BOM (utf-8: stripped, so the consumer's buffer is 3 bytes behind)
+		for _, p := range []int{4093, 4094, 4095, 4096, 4097, 4098, 4099, 8191, 8192} {
+			in := append(append([]byte(nil), bom...), filler()[:p+8]...)
+			in[3+p] = 0xE9
+			in[3+p+1] = 0xA9
+			e.runPipeX(enc, in, "whole", 61, false)
+		}
+	}
+	// formats: the byte at each boundary offset of a long well-formed input is replaced
+	for fi := range e.fixtures {
+		base := longRows(fi, 3*4096+200)
+		for _, enc := range encs {
+			for pi, p := range offs {
+				if p+2 >= len(base) {
+					continue
+				}
+				full := fi == 0 || fi == 1 || fi == 3 || fi == 4 // csv, csv2, fixed-length, fixedlength2: every offset
+				if !full && pi%4 != fi%4 {
+					continue
+				}
+				in := append([]byte(nil), base...)
+				switch (pi + fi) % 3 {
+				case 0:
+					in[p] = 0xE9
+				case 1:
+					in[p], in[p+1] = 0xFC, 0x80
+				default:
+					in[p-1], in[p], in[p+1] = 0xE4, 0xF6, 0xFC
+				}
+				mode := "whole"
+				if pi%7 == 6 {
+					mode = "onebyte"
+				}
+				e.runTranscript(fi, enc, in, mode)
+			}
+		}
+	}
+}
+
 // ---- tables -----------------------------------------------------------------------------------------
 
 func (e *env) runTable(enc string) {
 	d := caseDesc{Kind: "table", Enc: enc}
+	vh.Current(e.o, d)
 	var obs []string
 	for b := 0; b < 256; b++ {
 		name := enc
@@ -612,6 +854,9 @@ func main() {
 		}
 	}
 
+	// 4b. long inputs: non-ASCII bytes at and across the 4096-byte buffer boundaries
+	e.longCases(r)
+
 	// 5. random inputs: byte strings through the capture handler; generated and damaged fixture
 	// inputs through the formats
 	nPipe := o.Count(600, 30000)
@@ -667,7 +912,7 @@ func (e *env) replay(path string) {
 	case "table":
 		e.runTable(d.Enc)
 	case "pipe":
-		e.runPipe(d.Enc, in, d.Mode)
+		e.runPipeX(d.Enc, in, d.Mode, d.Consumer, true)
 	case "transcript":
 		for fi, fx := range e.fixtures {
 			if fx.Format == d.Format {
